@@ -15,7 +15,7 @@ RULE = ('symbols with automatic mask (random contents over versions weighted to 
         'format word and the unmasked stream must decode (zero syndromes); make_sequence with a requested mask is '
         'included; distinct = (version, chosen mask, auto/requested) combinations')
 ASSUMPTIONS = common.ASSUME_QR + ['reading fixed in DESIGN 4.1: the dark module counts as light while masks are scored']
-REQUIRED = ['cases_under_python_O', 'evaluations', 'encode_observed', 'symbols_decoded', 'auto_mask_checked', 'auto_mask_checked_micro',
+REQUIRED = ['cases_under_python_O', 'exact_ties_for_the_minimum', 'exact_ties_for_the_maximum_micro', 'evaluations', 'encode_observed', 'symbols_decoded', 'auto_mask_checked', 'auto_mask_checked_micro',
             'requested_mask_checked']
 TIMEOUT = {'quick': 3600, 'thorough': 21600}
 OPT_SLICE = {'quick': 120, 'thorough': 1500}     # cases re-run by one more worker under python -O (core.run_sharded)
@@ -114,6 +114,12 @@ def after(case, q, ex, rec):
             srt = sorted(scores)
             if srt[1] - srt[0] <= 10:
                 rec.count('near_ties_within_10_points')
+            if srt[1] == srt[0]:
+                # two candidates share the minimal penalty: the lowest-numbered one has to win (check_mask judged it)
+                rec.count('exact_ties_for_the_minimum')
+        elif scores:
+            if sorted(scores)[-1] == sorted(scores)[-2]:
+                rec.count('exact_ties_for_the_maximum_micro')
 
 
 # ------------------------------------------------------------------ the scoring functions themselves, hooked
